@@ -33,7 +33,7 @@ RULE = ("case = (point group, variant, lattice, NKdiv, adpt_mesh) or a tetrahedr
         "deduplicating states by the canonical multiset of (level, K mod 1, dK, factor, evaluated); invariants I1-I4 (I6 for C1) are "
         "evaluated in every state / on every transition against an exact rational reference model; non-trivial = state reached "
         "by >= 1 refinement in which a symmetry merge happened or (no symmetry) any refined state (distinct canonical states counted)")
-ASSUMPTIONS = ["depth <= 2 (quick) / 3 (thorough) refinement events; NKdiv <= 4 per direction",
+ASSUMPTIONS = ["depth <= 2 (quick) refinement events; thorough: depth 3 for grids with <= 8 initial cells and meshes with <= 8 children, depth 2 otherwise; NKdiv <= 4 per direction",
                "groups: the 32 crystallographic point groups + grey + black-white variants on the compatible zoo lattices (quick: a subset containing every generator type)",
                "coverage of the zone by symmetry images after refinement (I6) is only asserted without symmetry: on hexagonal lattices the image of a sub-cell is not a sub-cell, and a merge into a dead point makes the list a valid quadrature but not a tiling",
                "tetrahedral grids: default 5-tetrahedra cell, GridTrigonal, split thresholds length in {1,2,4,8}"]
@@ -79,8 +79,12 @@ def configs(tier):
                             if tier == "quick" and not (mesh == (2, 2, 2) or (mesh == (2, 2, 1) and div in ((2, 2, 2), (2, 2, 1)))
                                                         or (mesh == (3, 3, 3) and div == (1, 1, 1)) or (mesh == (3, 3, 1) and div == (2, 2, 1))):
                                 continue
-                            out.append({"kind": "grid", "group": name, "setting": setting, "variant": variant, "lat": lat,
-                                        "div": list(div), "mesh": list(mesh)})
+                            cfg = {"kind": "grid", "group": name, "setting": setting, "variant": variant, "lat": lat,
+                                   "div": list(div), "mesh": list(mesh)}
+                            if tier == "thorough":
+                                # depth 3 where the state space stays small (<= 8 initial cells, mesh with <= 8 children)
+                                cfg["depth"] = 3 if (int(np.prod(div)) <= 8 and int(np.prod(mesh)) <= 8) else 2
+                            out.append(cfg)
     for lat in ("sc", "tric", "hex", "fcc"):
         for length in (1, 2, 4, 8):
             for by_vol, by_size in ((True, True), (True, False), (False, True)):
